@@ -32,3 +32,69 @@ func VerifC17Redir(nforms, times int) {
 	}
 	vrt.Reach("evaluation ended")
 }
+
+// adversarial argument pool, as Elvish source
+var verifC17Pool = []string{
+	"''", "a", "-1", "0", "1e400", "NaN", "\"\\xff\"", "9223372036854775808", "-9223372036854775808",
+	"[]", "[a b]", "[&]", "[&k=v]", "$nil", "$true", "(num 0.5)", "{ }", "{|x| put $x }", "1/3", "-0.0", "(num -Inf)", "100000000000000000000",
+}
+
+// builtins that need the operating system (files, processes, the clock, the
+// terminal) or never return; they are outside this harness
+var verifC17Skip = map[string]bool{
+	"exit": true, "exec": true, "external": true, "has-external": true, "search-external": true, "cd": true,
+	"sleep": true, "time": true, "src": true, "-gc": true, "-stack": true, "-log": true, "-ifaddrs": true,
+	"benchmark": true, "tilde-abbr": true, "use-mod": true, "read-line": true, "read-upto": true, "read-bytes": true,
+	"from-lines": true, "from-json": true, "from-terminated": true, "slurp": true, "only-bytes": true, "only-values": true,
+	"get-env": true, "set-env": true, "unset-env": true, "has-env": true, "resolve": true, "deprecate": true, "-time": true,
+	"rand": true, "randint": true, "-randseed": true,
+	// unbounded output by design (range 1e20, repeat 1e20 x): the harness has no reader
+	"range": true, "repeat": true,
+	// encoding/json needs the real reflect package
+	"to-json": true,
+	// fg needs process groups; `/` without arguments changes directory
+	"fg": true, "/": true,
+}
+
+func verifC17Names() []string {
+	var names []string
+	ns := builtinNs.Ns()
+	for _, info := range ns.infos {
+		if len(info.name) > 1 && info.name[len(info.name)-1] == '~' && !info.deleted {
+			n := info.name[:len(info.name)-1]
+			if !verifC17Skip[n] {
+				names = append(names, n)
+			}
+		}
+	}
+	// deterministic order
+	for i := 1; i < len(names); i++ {
+		for j := i; j > 0 && names[j] < names[j-1]; j-- {
+			names[j], names[j-1] = names[j-1], names[j]
+		}
+	}
+	return names
+}
+
+// VerifC17Builtin: every builtin function (from index lo, count many, in
+// name order) called with nargs arguments, each any value of the adversarial
+// pool: evaluation ends, normally or with an exception.
+func VerifC17Builtin(lo, count, nargs int) {
+	names := verifC17Names()
+	if lo >= len(names) {
+		vrt.Reach("evaluation ended")
+		return
+	}
+	if lo+count > len(names) {
+		count = len(names) - lo
+	}
+	code := names[lo+vrt.Choice("builtin", count)]
+	for i := 0; i < nargs; i++ {
+		code += " " + verifC17Pool[vrt.Choice("arg", len(verifC17Pool))]
+	}
+	ev := NewEvaler()
+	ch := make(chan any, 256)
+	mk := func() *Port { return &Port{Chan: ch, sendStop: make(chan struct{}), sendError: new(error)} }
+	ev.Eval(parse.Source{Name: "[v]", Code: code}, EvalCfg{Ports: []*Port{{Chan: ClosedChan}, mk(), mk()}})
+	vrt.Reach("evaluation ended")
+}
